@@ -725,7 +725,7 @@ Proof.
 Qed.
 
 (* ------------------------------------------------------------------ the layouts, as read from the Go source *)
-Open Scope string_scope.
+Local Open Scope string_scope.
 
 Theorem method_tags_as_modelled :
   c24_method_tags =
